@@ -15,12 +15,21 @@ mod dist_engine;
 mod path_engine;
 mod parse_engine;
 mod series_engine;
+mod wsgen;
+mod push_engine;
 
 use std::io::Write;
 
 fn main() {
     // panics of the code under test are outcomes, not noise
-    std::panic::set_hook(Box::new(|_| {}));
+    std::panic::set_hook(Box::new(|info| {
+        if std::env::var("VERIF_SHOW_PANIC").is_ok() {
+            use std::io::Write;
+            if let Ok(mut f) = std::fs::OpenOptions::new().create(true).append(true).open("/verif/build/panic.log") {
+                let _ = writeln!(f, "{}", info);
+            }
+        }
+    }));
     let args: Vec<String> = std::env::args().collect();
     if args.len() < 2 {
         eprintln!("usage: rqharness <engine> [key=value ...]");
@@ -32,9 +41,22 @@ fn main() {
     }
     let seed: u64 = opts.get("seed").and_then(|s| s.parse().ok()).unwrap_or(1);
     let n: usize = opts.get("n").and_then(|s| s.parse().ok()).unwrap_or(1000);
+    let engine = args[1].as_str();
+    if engine.starts_with("push") {
+        // engines that run the whole tool: its stdout/stderr chatter must not mix with the protocol
+        let f = push_engine::steal_stdout();
+        let mut out = std::io::BufWriter::new(f);
+        match engine {
+            "push" => push_engine::run(&mut out, seed, n, &opts),
+            "push-replay" => push_engine::replay(&mut out, &opts),
+            other => { eprintln!("unknown engine {}", other); std::process::exit(2); }
+        }
+        out.flush().unwrap();
+        return;
+    }
     let stdout = std::io::stdout();
     let mut out = std::io::BufWriter::new(stdout.lock());
-    match args[1].as_str() {
+    match engine {
         "apply" => apply_engine::run(&mut out, seed, n, &opts),
         "apply-replay" => apply_engine::replay(&mut out, &opts),
         "dist" => dist_engine::run(&mut out, seed, n, &opts),
